@@ -69,7 +69,15 @@ class Image:
                                 i.unresolved = sym
                             else:
                                 i.abs_target = tgt + add
+                        if i.abs_target is None and not i.relocs and "rip" in i.text:
+                            mm = re.search(r"\[rip([+-]0x[0-9a-f]+)\]", i.text)
+                            if mm:      # rip-relative reference inside the same section (tables kept in .text)
+                                i.abs_target = i.addr + i.size + int(mm.group(1), 16)
                         self.insns[i.addr] = i
+                    r = Region("%s:%s" % (o.path.split("/")[-1], s.name), base, s.size, readable=True, writable=False, kind="const")
+                    for k, b in enumerate(s.data):
+                        r.bytes[k] = b
+                    self.regions.append(r)
                 else:
                     r = Region("%s:%s" % (o.path.split("/")[-1], s.name), secbase[s.idx], s.size, readable=True, writable=False, kind="const")
                     for k, b in enumerate(s.data):
